@@ -23,28 +23,28 @@ type Violation struct {
 }
 
 type Result struct {
-	Property     string         `json:"property"`
-	Part         string         `json:"part"`
-	Shard        int            `json:"shard"`
-	NShards      int            `json:"nshards"`
-	Evaluations  int64          `json:"evaluations"`
-	Distinct     int64          `json:"distinct"`
-	States       int64          `json:"states"`
-	Transitions  int64          `json:"transitions"`
-	Traces       int64          `json:"traces"`
-	Exhaustive   bool           `json:"exhaustive"`
-	Rule         string         `json:"rule"`
-	Bounds       map[string]any `json:"bounds,omitempty"`
+	Property     string           `json:"property"`
+	Part         string           `json:"part"`
+	Shard        int              `json:"shard"`
+	NShards      int              `json:"nshards"`
+	Evaluations  int64            `json:"evaluations"`
+	Distinct     int64            `json:"distinct"`
+	States       int64            `json:"states"`
+	Transitions  int64            `json:"transitions"`
+	Traces       int64            `json:"traces"`
+	Exhaustive   bool             `json:"exhaustive"`
+	Rule         string           `json:"rule"`
+	Bounds       map[string]any   `json:"bounds,omitempty"`
 	Outcomes     map[string]int64 `json:"outcomes,omitempty"`
-	Samples      []any          `json:"samples"`
-	Notes        []string       `json:"notes,omitempty"`
-	Violations   []Violation    `json:"violations"`
-	ViolationsN  int64          `json:"violations_total"`
-	Wall         float64        `json:"wall_s"`
+	Samples      []any            `json:"samples"`
+	Notes        []string         `json:"notes,omitempty"`
+	Violations   []Violation      `json:"violations"`
+	ViolationsN  int64            `json:"violations_total"`
+	Wall         float64          `json:"wall_s"`
 	start        time.Time
 	sigSeen      map[string]int
-	MaxPerSig    int            `json:"-"`
-	MaxViolation int            `json:"-"`
+	MaxPerSig    int `json:"-"`
+	MaxViolation int `json:"-"`
 }
 
 type Args struct {
